@@ -90,6 +90,10 @@ quick.append(job("c13.svr", secs=120, allow=AL, n=3, symx=0, x0=0, x1=1, x2=2, s
 quick.append(job("c13.svr", secs=120, allow=AL, n=3, symx=0, x0=1, x1=3, x2=5, shrink=1))
 quick.append(job("c13.svr", secs=150, allow=AL, n=3, symx=0, x0=-2, x1=0, x2=2, c=8, loss=1, shrink=1))
 
+# regression through the public parameter API (f64 fit; the solver enumerates C, loss epsilon / nu, targets, kernel,
+# shrinking).  which=1 (nu-regression) is a recorded defect region: the nu constraint is not enforced (F44)
+quick.append(job("c13.svr_params", secs=120, which=0))
+quick.append(job("c13.svr_params", secs=120, which=1))
 thorough = list(quick)
 for pat in (5, 3, 6, 9):
     thorough.append(job("c13.swap", secs=300, jobs=4, n=4, pat=pat, ub=0, nsw=2, only=S_TARGET | S_BOUND | S_GRAD))
